@@ -14,9 +14,24 @@ import (
 //	strict:  optional satisfiable points populated too, slices complete,
 //	         single values inside the top-ranked (tied) set
 func CheckWiring(g *model.Graph, strict bool) error {
+	return CheckWiringOpt(g, WiringOpts{Complete: strict, Rank: strict})
+}
+
+// WiringOpts selects how much of the model is asserted.
+type WiringOpts struct {
+	Complete bool // optional satisfiable points populated, slices complete
+	Rank     bool // single values inside the top-ranked (tied) set
+	Only     func(p *model.Point) bool
+}
+
+func CheckWiringOpt(g *model.Graph, o WiringOpts) error {
+	strict := o.Complete
 	must, _ := g.Created()
 	for _, c := range g.Pop {
 		for _, p := range g.Points[c] {
+			if o.Only != nil && !o.Only(p) {
+				continue
+			}
 			obs := Observe(g, p)
 			seen := map[*model.Comp]bool{}
 			for _, s := range obs {
@@ -52,7 +67,7 @@ func CheckWiring(g *model.Graph, strict bool) error {
 					if len(obs) != 1 {
 						return fmt.Errorf("%v is empty although %v are admissible", p, p.Cands)
 					}
-					if !inSet(p.Top, obs[0].Comp) {
+					if o.Rank && !inSet(p.Top, obs[0].Comp) {
 						return fmt.Errorf("%v holds %s but the top-ranked candidates are %v", p, obs[0].Comp.Name, p.Top)
 					}
 				}
